@@ -834,7 +834,7 @@ func (in *Interp) rangeIter(x Value) *Iter {
 					id = len(in.rangeSites)
 					in.rangeSites[in.curRange] = id
 				}
-				if id == in.permSite && in.permInstances < 6 {
+				if id == in.permSite {
 					in.permInstances++
 					in.permute(it)
 				}
@@ -852,13 +852,13 @@ func (in *Interp) permute(it *Iter) {
 	in.mapOrd++
 	in.Notes["nondet-map-order"]++
 	if n > 4 {
-		rot := in.NewVar(fmt.Sprintf("maprot%d", in.mapOrd), 8)
+		rot := in.NewVar(fmt.Sprintf("maprot_n%d", n), 8)
 		ok := Sc{C: b2u(rot.C < uint64(n)), T: in.St.Cmp(sym.OpUlt, rot.T, in.St.Const(8, uint64(n)))}
 		if !in.branch(ok, RecAssume, "mapord") {
 			in.abort(StAssumeFail, "mapord")
 		}
 		r := int(in.concretize(rot, 8, "mapord"))
-		rev := in.NewVar(fmt.Sprintf("maprev%d", in.mapOrd), 0)
+		rev := in.NewVar(fmt.Sprintf("maprev_n%d", n), 0)
 		keys := append(append([]Value(nil), it.keys[r:]...), it.keys[:r]...)
 		vals := append(append([]Value(nil), it.vals[r:]...), it.vals[:r]...)
 		if in.branch(rev, RecBranch, "mapord") {
@@ -871,7 +871,8 @@ func (in *Interp) permute(it *Iter) {
 		return
 	}
 	for i := 0; i < n-1; i++ {
-		v := in.NewVar(fmt.Sprintf("mapord%d_%d", in.mapOrd, i), 8)
+		// one Lehmer code per (site, map size): every instance of the site uses the same symbolic order
+		v := in.NewVar(fmt.Sprintf("mapord_n%d_%d", n, i), 8)
 		rem := uint64(n - i)
 		ok := Sc{C: b2u(v.C < rem), T: in.St.Cmp(sym.OpUlt, v.T, in.St.Const(8, rem))}
 		if !in.branch(ok, RecAssume, "mapord") {
